@@ -745,3 +745,185 @@ def clauses_c09(ex, obs) -> list:
             seen.add((c, w))
             res.append((c, w, dt))
     return res
+
+
+# ---------------------------------------------------------------------------
+# C11 - closing always leaves a complete file and a released handle
+PROBE_ATTRS = ("values", "vertices", "cells", "metadata")
+
+
+def _h5_count(fid=None):
+    import h5py
+
+    types = h5py.h5f.OBJ_FILE | h5py.h5f.OBJ_GROUP | h5py.h5f.OBJ_DATASET | h5py.h5f.OBJ_ATTR
+    return h5py.h5f.get_obj_count(h5py.h5f.OBJ_ALL if fid is None else fid, types)
+
+
+def _probe(entity):
+    from geoh5py.shared.exceptions import Geoh5FileClosedError
+
+    res = {}
+    for attr in PROBE_ATTRS:
+        if not hasattr(type(entity), attr):
+            continue
+        try:
+            res[attr] = ["value", observe.norm(getattr(entity, attr))]
+        except Geoh5FileClosedError:
+            res[attr] = ["closed-error"]
+        except Exception as err:  # pylint: disable=broad-except
+            res[attr] = ["other-error", type(err).__name__]
+    return res
+
+
+class C11Protocol:
+    @staticmethod
+    def observe(ex, history):
+        from geoh5py.groups import ContainerGroup
+        from geoh5py.shared.exceptions import Geoh5FileClosedError
+        from geoh5py.shared.utils import fetch_active_workspace
+
+        mode = ex.cfg.get("exit", "normal")
+        obs = {"results": list(ex.results), "exit": mode, "live": None, "live2": None, "reopen2": None}
+        probes = []
+        seen = set()
+        for e in ex.held:
+            if id(e) not in seen and hasattr(e, "uid") and e.workspace is ex.ws:
+                seen.add(id(e))
+                probes.append(e)
+        if mode in ("fetch_r+_from_r", "fetch_r_from_closed"):
+            probes = []  # entities of the first session belong to a tree that is re-loaded by these modes
+        g_before = _h5_count()
+        f_before = _h5_count(ex.ws.geoh5.id) + (_h5_count(ex.ws2.geoh5.id) if ex.ws2 is not None else 0)
+        escaped = None
+        if mode == "normal":
+            with ex.ws:
+                pass
+        elif mode == "close":
+            ex.ws.close()
+        elif mode == "raise":
+            try:
+                with ex.ws:
+                    raise RuntimeError("boom")
+            except RuntimeError:
+                escaped = "RuntimeError"
+        elif mode == "refusal":
+            try:
+                with ex.ws:
+                    ContainerGroup.create(ex.ws, name="dup", uid=ex.ws.root.uid)
+                escaped = "not-refused"
+            except Exception as err:  # pylint: disable=broad-except
+                escaped = type(err).__name__
+        elif mode in ("fetch_r", "fetch_r+"):
+            # requested mode already satisfied by the open handle: the helper hands the
+            # workspace over as it is and must not close it
+            with fetch_active_workspace(ex.ws, mode=mode.split("_")[1]) as w:
+                obs["mode_inside"] = w.geoh5.mode
+                _ = [c.name for c in w.root.children]
+            obs["open_after_same_mode_fetch"] = bool(ex.ws._geoh5)  # pylint: disable=protected-access
+            ex.ws.close()
+        elif mode == "fetch_r+_from_r":
+            # the helper has to close a read-only handle and re-open it writable
+            ex.ws.close()
+            ex.ws.open(mode="r")
+            with fetch_active_workspace(ex.ws, mode="r+") as w:
+                obs["mode_inside"] = w.geoh5.mode
+                _ = [c.name for c in w.root.children]
+        elif mode == "fetch_r_from_closed":
+            ex.ws.close()
+            with fetch_active_workspace(ex.ws, mode="r") as w:
+                obs["mode_inside"] = w.geoh5.mode
+                _ = [c.name for c in w.root.children]
+        obs["escaped"] = escaped
+        if ex.ws2 is not None:
+            ex.ws2.close()
+        obs["handles_left"] = _h5_count() - (g_before - f_before)
+        # after closing: the dedicated error, never stale or empty results
+        try:
+            _ = ex.ws.geoh5
+            obs["geoh5_after_close"] = "returned"
+        except Geoh5FileClosedError:
+            obs["geoh5_after_close"] = "closed-error"
+        except Exception as err:  # pylint: disable=broad-except
+            obs["geoh5_after_close"] = type(err).__name__
+        obs["probes"] = [[str(e.uid), type(e).__name__, _probe(e)] for e in probes]
+        b1 = ex.ws.h5file.getvalue()
+        b2 = ex.ws2.h5file.getvalue() if ex.ws2 is not None else None
+        ex.closed_bytes.append((len(ex.results), b1, b2))
+        obs["bytes"], obs["bytes2"] = b1, b2
+        obs["handles_left_after_probes"] = _h5_count() - (g_before - f_before)
+        # a second Workspace object on the same content
+        obs["reopen"], obs["reopen_error"] = ex.reopen_snapshot(b1)
+        ref = {}
+        if obs["reopen"] is not None:
+            for uid, rec in obs["reopen"]["tree"].items():
+                ref[uid] = {a: rec.get(a) for a in PROBE_ATTRS if a in rec}
+        obs["reference"] = ref
+        # re-opening the same Workspace object restores full access to the same content
+        try:
+            ex.ws.open()
+            obs["same_object_reopen"] = observe.snapshot(ex.ws)
+            ex.ws.close()
+            obs["same_object_error"] = None
+        except Exception as err:  # pylint: disable=broad-except
+            obs["same_object_reopen"] = None
+            obs["same_object_error"] = type(err).__name__
+        obs["handles_left_final"] = _h5_count() - (g_before - f_before)
+        return obs
+
+
+def clauses_c11(ex, obs) -> list:
+    out = []
+    mode = obs["exit"]
+    res = ex.results[-5:]
+    # (a) complete, valid file holding every completed operation
+    for clause, wit, detail in clauses_c02(ex, obs):
+        out.append(("file-valid-after-close", f"{clause}:{wit}", detail))
+    if obs.get("reopen_error"):
+        out.append(("can-be-opened-again", f"second-workspace:{obs['reopen_error']}", {"results": res}))
+    elif obs["reopen"] is not None:
+        exp = ex.expected(1)
+        got = treeops.project(obs["reopen"]["tree"], treeops.root_uid_of(obs["reopen"]), "root")
+        d = observe.diff(exp, got)
+        if d:
+            out.append(("completed-operations-are-in-the-file", _witness(ex, d, exp, got), {"diff": d[:10], "exit": mode, "results": res}))
+    # (b) no HDF5 handle stays open
+    for k in ("handles_left", "handles_left_after_probes", "handles_left_final"):
+        if obs[k] != 0:
+            out.append(("no-handle-left-open", f"{k}", {"count": obs[k], "exit": mode, "results": res}))
+            break
+    if mode == "refusal" and obs["escaped"] == "not-refused":
+        pass  # nothing to say here: the refusal itself is C06's business
+    # (c) after closing: dedicated error, never stale or empty
+    if obs["geoh5_after_close"] != "closed-error":
+        out.append(("closed-file-error", f"workspace.geoh5:{obs['geoh5_after_close']}", {"exit": mode}))
+    removed_uids = {str(ex.uid[i]) for i in ex.model.removed}
+    for uid, cls, pr in obs["probes"]:
+        if uid in removed_uids or uid not in obs["reference"]:
+            continue
+        kind = "data" if "values" in pr else "object" if "vertices" in pr else "group"
+        for attr, r in pr.items():
+            if r[0] == "closed-error":
+                continue
+            if r[0] == "other-error":
+                out.append(("closed-file-error", f"{kind}.{attr}:{r[1]}", {"cls": cls, "exit": mode, "results": res}))
+            elif attr in obs["reference"][uid] and r[1] != obs["reference"][uid][attr]:
+                out.append(("no-stale-or-empty-results", f"{kind}.{attr}", {"cls": cls, "served": r[1], "in_file": obs["reference"][uid][attr], "exit": mode, "results": res}))
+    # (d) re-opening restores full access to the same content
+    if obs["same_object_error"]:
+        out.append(("can-be-opened-again", f"same-workspace:{obs['same_object_error']}", {"exit": mode, "results": res}))
+    elif obs["reopen"] is not None:
+        a, b = _proj_c01(obs["same_object_reopen"]["tree"]), _proj_c01(obs["reopen"]["tree"])
+        d = observe.diff(a, b)
+        if d:
+            out.append(("reopen-restores-same-content", _witness(ex, d, a, b), {"diff": d[:10], "exit": mode}))
+    want_mode = {"fetch_r+": ("r+",), "fetch_r": ("r", "r+"), "fetch_r+_from_r": ("r+",), "fetch_r_from_closed": ("r",)}.get(mode)
+    if want_mode and obs.get("mode_inside") not in want_mode:
+        out.append(("helper-reopens-in-requested-mode", f"{mode}:{obs.get('mode_inside')}", {}))
+    if mode in ("fetch_r", "fetch_r+") and obs.get("open_after_same_mode_fetch") is False:
+        out.append(("helper-leaves-a-satisfying-handle-open", mode, {}))
+    seen, res2 = set(), []
+    for c, w, dt in out:
+        if (c, w) not in seen:
+            seen.add((c, w))
+            res2.append((c, w, dt))
+    return res2
